@@ -38,13 +38,27 @@ type Collector struct {
 	Errors   []string // unresolved anchors, vacuity failures, internal errors
 	Analysed map[string]int
 	Notes    []string
+	index    map[string]int
 }
 
 // New returns an empty collector.
 func New() *Collector { return &Collector{Analysed: map[string]int{}} }
 
-// Add records an obligation.
-func (c *Collector) Add(o Obligation) { c.Obs = append(c.Obs, o) }
+// Add records an obligation; the same construct reported twice (generic
+// instantiations, a rule shared by two call paths) keeps the worst verdict.
+func (c *Collector) Add(o Obligation) {
+	if c.index == nil {
+		c.index = map[string]int{}
+	}
+	if i, ok := c.index[o.Key]; ok {
+		if rank(o.Status) > rank(c.Obs[i].Status) {
+			c.Obs[i] = o
+		}
+		return
+	}
+	c.index[o.Key] = len(c.Obs)
+	c.Obs = append(c.Obs, o)
+}
 
 // Hold records a discharged obligation.
 func (c *Collector) Hold(rule, key, pos, detail string) {
@@ -189,6 +203,7 @@ func Finish(c *Collector, prop, tier string, seed int, wall float64, explanation
 	kf *KnownFile, evidenceDir string) (*Outcome, error) {
 
 	out := &Outcome{Errors: c.Errors}
+	c.index = nil
 	sort.SliceStable(c.Obs, func(i, j int) bool { return c.Obs[i].Key < c.Obs[j].Key })
 	// de-duplicate identical keys (same construct reported twice)
 	var obs []Obligation
